@@ -1,18 +1,120 @@
-import PeptVerif.Model.Serialize
+import PeptVerif.Lemmas.ParserTotal
 /-!
 # C09 — the parser is total (property theorems)
+
+Termination. `scan`, `digitsUS`, `intSpan`, `addGlobals`, the serializer: structural recursion.
+`parseMods`, `parseStart`, `parseMiddle`, `parseEnd`, `parseChains`: well-founded recursion on the length of the
+remaining input, accepted by Lean's termination checker with the decrease proofs written inside the definitions
+(Model/Parser.lean) — that is the "never hangs" statement for the inner loops. For the outer chain loop the decrease is
+the theorem `parseChains_never_hangs` below.
+
+Not covered by a Lean theorem: the deferred-validation clause (mass / comp of unresolvable modification values) —
+`mod_mass` / `mod_comp` are not modelled here; that clause rests on the oracle of harness/props/c09.py.
 -/
 namespace Pept
 
-/-- before the fix commit: a bracket group that ends the input made `_parse_char` read past the end -/
+/-- Every iteration of the chain loop (`_ProFormaParser.parse`) consumes at least one character, for every input
+and for the code before and after the fix: the model's progress test never fails, i.e. the Python
+`while not self._end_of_sequence()` cannot spin. -/
+theorem parseChains_never_hangs (fixed : Bool) (conn : Option Bool) (s : List Char) :
+    parseChains fixed conn s ≠ .error .hang := by
+  fun_induction parseChains fixed conn s
+  all_goals try (intro h; cases h; done)
+  · rename_i e hs; intro h; cases h; exact parseStart_noHang _ _ _ hs
+  · rename_i e hm; intro h; cases h; exact (parseMiddle_vf _ _ _).noHang hm
+  · rename_i e he; intro h; cases h; exact (parseEnd_vf _ _ _).noHang he
+  · rename_i e hc ih; intro h; cases h; exact ih hc
+  · -- the progress test cannot fail
+    rename_i c cs a1 r1 hs a2 r2 hm a3 cn' r3 he hlt
+    exfalso; apply hlt
+    obtain ⟨hl1, hstop⟩ := parseStart_progress _ _ _ _ _ hs
+    have hl3 := parseEnd_length _ _ _ _ _ _ he
+    rcases hstop with h0 | ⟨c', t, hr, hc'⟩
+    · subst h0
+      have := parseMiddle_length _ _ _ _ _ hm
+      simp only [List.length_nil, List.length_cons] at *; omega
+    · subst hr
+      have := parseMiddle_progress _ _ _ _ _ hc' hm
+      simp only [List.length_cons] at *; omega
+
+/-- every error of the chain loop of the repaired parser is of the ValueError family -/
+theorem parseChains_vf (conn : Option Bool) (s : List Char) : VF (parseChains true conn s) := by
+  intro e h
+  have hh := parseChains_never_hangs true conn s
+  revert h hh
+  fun_induction parseChains true conn s
+  all_goals intro h hh
+  all_goals try (cases h; done)
+  · rename_i e' hs; cases h; exact parseStart_vf _ _ _ hs
+  · rename_i e' hm; cases h; exact parseMiddle_vf _ _ _ hm
+  · rename_i e' he; cases h; exact parseEnd_vf _ _ _ he
+  · rename_i e' hc ih; cases h
+    exact ih hc (parseChains_never_hangs _ _ _)
+  · exact absurd rfl hh
+
+/-- **The parser is total.** For EVERY input string the (repaired) parser returns an annotation / multi-annotation
+or raises `ProFormaFormatError` / `ValueError`; never IndexError, TypeError, KeyError, AttributeError, and it never
+loops (`hang`). -/
+theorem parse_total (s : List Char) :
+    (∃ p, parse true s = .ok p) ∨ parse true s = .error .format ∨ parse true s = .error .value := by
+  unfold parse
+  split
+  · exact Or.inl ⟨_, rfl⟩
+  · split
+    · rename_i e he
+      have := parseChains_vf _ _ _ he
+      cases e <;> simp [Err.valueFamily] at this ⊢
+    · split <;> exact Or.inl ⟨_, rfl⟩
+
+example : parse true "[a]?[+1.5]^2-PEP".toList = .ok (.single
+    { seq := "PEP".toList, unknown := some [⟨.str ['a'], 1⟩], nterm := some [⟨.flt "1.5".toList, 2⟩] }) := by
+  decide +kernel
+example : parse true "[a]".toList = .error .format := by decide +kernel
+example : parse true "PEP/".toList = .error .value := by decide +kernel
+
+/-- The full statement is FALSE for the code before the fix commit (4c2ce90); witnesses replayed on that commit:
+a bracket group that ends the input made `_parse_char` read `self.sequence[self.position]` past the end. -/
 theorem parse_total_false_before_fix_index :
     parse false "[a]".toList = .error .index := by decide +kernel
 
 theorem parse_total_false_before_fix_index2 :
     parse false "[a]?[b]".toList = .error .index := by decide +kernel
 
-/-- before the fix commit: `'@' in mod.val` on a number -/
+/-- before the fix commit: `'@' in mod.val` evaluated on a number -/
 theorem parse_total_false_before_fix_type :
     parse false "<13>PEP".toList = .error .type := by decide +kernel
+
+/-- the multi-chain joiner never indexes past `connections`, given one flag per junction -/
+theorem serializeMulti_ok (plus : Bool) (as : List Annotation) (conns : List (Option Bool))
+    (h : as.length ≤ conns.length + 1) : ∃ t, serializeMulti plus as conns = .ok t := by
+  induction as generalizing conns with
+  | nil => exact ⟨_, rfl⟩
+  | cons a rest ih =>
+    cases rest with
+    | nil => exact ⟨_, rfl⟩
+    | cons b rest' =>
+      cases conns with
+      | nil => simp at h
+      | cons cn conns' =>
+        obtain ⟨t, ht⟩ := ih conns' (by simp at h ⊢; omega)
+        exact ⟨_, by simp [serializeMulti, ht]⟩
+
+/-- **Whatever the parser accepts can be serialized** (either `include_plus`): `serialize` is a total function of the
+model for single annotations, and for multi-chain results the connection list the parser builds is long enough. -/
+theorem serialize_total (fixed plus : Bool) (s : List Char) (p : Parsed) (h : parse fixed s = .ok p) :
+    ∃ t, serializeParsed plus p = .ok t := by
+  unfold parse at h
+  split at h
+  · cases h; exact ⟨_, rfl⟩
+  · split at h
+    · cases h
+    · rename_i l hl
+      split at h
+      · cases h; exact ⟨_, rfl⟩
+      · cases h
+        exact serializeMulti_ok _ _ _ (by simp; omega)
+
+example : serializeParsed true (.multi [{ seq := "PEP".toList }, { seq := "TIDE".toList, charge := some 2 }] [some false])
+    = .ok "PEP+TIDE/2".toList := by decide +kernel
 
 end Pept
